@@ -73,6 +73,9 @@ SRC_CASE = {
     'concat': ('concat', lambda args: list(args)),
     'len_': ('len', lambda s: [s]),
     'to_char_array': ('toCharArray', lambda s: [s]),
+    'str_': ('str', lambda v: [v]),
+    'string_by_int': ('*', lambda s, n, engine: [s, n]),
+    'int_by_string': ('*', lambda n, s, engine: [n, s]),
 }
 
 
